@@ -89,8 +89,8 @@ package protocol
 //@   ghostset after append#3: qk = qk + 1
 //@   ghostset after append#4: qk = qk + 1
 //@   ghostset after append#5: qk = qk + 1
-//@   assert @C17 before append#1: old(isArgEncoding(src)) && !sameArray(old(dst), src) && 0 <= qk && qk < qn && i == qpos[qk] ==> false
-//@   assert @C17 before append#2: old(isArgEncoding(src)) && !sameArray(old(dst), src) && 0 <= qk && qk < qn && i == qpos[qk] ==> false
+//@   assert @C17 before append#1: old(isArgEncoding(src)) && !sameArray(old(dst), src) && 0 <= qk && qk < qn && i == qpos[qk] && qx[qk] >= -1 ==> false
+//@   assert @C17 before append#2: old(isArgEncoding(src)) && !sameArray(old(dst), src) && 0 <= qk && qk < qn && i == qpos[qk] && qx[qk] >= -1 ==> false
 //@   assert @C17 before IndexByte#0: hexTablesInverse() && argTablesFacts()
 //@   assert @C17 before append#3: old(isArgEncoding(src)) && !sameArray(old(dst), src) && 0 <= qk && qk < qn && i == qpos[qk] ==> escArg(qx[qk]) && qx[qk] != ' '
 //@   assert @C17 before append#3: old(isArgEncoding(src)) && !sameArray(old(dst), src) && 0 <= qk && qk < qn && i == qpos[qk] ==> src[i+1] == hexU(qx[qk] / 16) && src[i+2] == hexU(qx[qk] % 16) && qpos[qk+1] == i + 3
@@ -102,14 +102,13 @@ package protocol
 //@   assert @C17 after append#3: old(isArgEncoding(src)) && !sameArray(old(dst), src) && 0 <= qk && qk < qn && i == qpos[qk] && len(dst) == len(old(dst)) + qk && forallT(j, 0, qk, qx[j], dst[len(old(dst)) + j] == qx[j]) ==> len(result) == len(old(dst)) + qk + 1 && result[len(old(dst)) + qk] == qx[qk] && forallT(j, 0, qk, qx[j], result[len(old(dst)) + j] == qx[j])
 //@   assert @C17 after append#4: old(isArgEncoding(src)) && !sameArray(old(dst), src) && 0 <= qk && qk < qn && i == qpos[qk] && len(dst) == len(old(dst)) + qk && forallT(j, 0, qk, qx[j], dst[len(old(dst)) + j] == qx[j]) ==> len(result) == len(old(dst)) + qk + 1 && result[len(old(dst)) + qk] == qx[qk] && forallT(j, 0, qk, qx[j], result[len(old(dst)) + j] == qx[j])
 //@   assert @C17 after append#5: old(isArgEncoding(src)) && !sameArray(old(dst), src) && 0 <= qk && qk < qn && i == qpos[qk] && len(dst) == len(old(dst)) + qk && forallT(j, 0, qk, qx[j], dst[len(old(dst)) + j] == qx[j]) ==> len(result) == len(old(dst)) + qk + 1 && result[len(old(dst)) + qk] == qx[qk] && forallT(j, 0, qk, qx[j], result[len(old(dst)) + j] == qx[j])
-//@   ensures extends(r, dst) && spareOnly(dst)
+//@   ensures @C03 extends(r, dst) && spareOnly(dst)
 //@   top-ensures @C17 old(isArgEncoding(src)) && !sameArray(dst, src) ==> len(r) == len(dst) + qn && forallT(k, 0, qn, qx[k], r[len(dst) + k] == qx[k])
 //@   loop 0:
 //@     invariant 0 <= i && i <= len(src)
-//@     invariant extends(dst, old(dst)) && spareOnly(old(dst))
+//@     invariant @C03 extends(dst, old(dst)) && spareOnly(old(dst))
 //@     invariant @C17 old(isArgEncoding(src)) && !sameArray(old(dst), src) ==> 0 <= qk && qk <= qn && i == qpos[qk] && len(dst) == len(old(dst)) + qk
 //@     invariant @C17 old(isArgEncoding(src)) && !sameArray(old(dst), src) ==> forallT(j, 0, qk, qx[j], dst[len(old(dst)) + j] == qx[j])
-//@     invariant @C17 old(isArgEncoding(src)) && !sameArray(old(dst), src) ==> isArgEncoding(src)
 
 //@ func decodeCookieArg(dst, src, skipQuotes) r
 //@   props C03
